@@ -80,6 +80,19 @@ CHECKS = {
              "output-phase failure class (unwritable output) is generated separately: its non-atomicity is the recorded known finding F-io.",
         note="Trusted: severities in vf/mutate.py; the forked-child CLI driver (cross-checked against a real subprocess in C13).",
         design="4/C07"),
+    "C08": dict(
+        category="exploration",
+        technique="grammar-based Hypothesis generation with fault planting and token/character mutation, corpus mutation, and (thorough) coverage-guided atheris fuzzing with a structured decoder; crash bucketing, watchdog with hang confirmation",
+        text="Texts of grammar G - rendered model programs with planted catalogue faults and up to 8 token/character mutations, and mutated "
+             "windows of the practice corpus and of the repository's own compiler-test snippets - are assembled under both report "
+             "handlers; the outcome must be success or failure with an error diagnostic. Any other exception (bucketed by type and "
+             "innermost pdpy11 frame), a silent failure, a handler-dependent outcome, or a run that still has no result after 60 s in a "
+             "fresh process is a violation; a 5 s watchdog hit alone is only counted. The thorough tier adds 16 five-minute atheris "
+             "campaigns (empty and seeded corpus) whose bytes drive the same mutators. Termination is decided only in the bounded "
+             "sense stated.",
+        note="Trusted: the bucketing rule and the slow-finite classification (pdpy11's documented exponential cost of padding directives); "
+             "findings repaired so far are listed in known_findings.json (fixed).",
+        design="4/C08"),
     "C09": dict(
         category="exploration",
         technique="Hypothesis programs assembled at three bases: metamorphic relocation law plus differential against the reference assembler",
